@@ -79,6 +79,7 @@ mut("c08-seed-from-global", "C08", "pybrops/opt/algo/IntegerGeneticAlgorithm.py"
 mut("c08-revert-selprot-rng", "C08", "pybrops/breed/prot/sel/SubsetSelectionProtocol.py", "                xconfig_decn = sosoln.soln_decn[0],\n                rng = self.rng", "                xconfig_decn = sosoln.soln_decn[0],\n                rng = None", "reverts fix 49bba688 at one site")
 mut("c08-hc-time-tiebreak", "C08", "pybrops/opt/algo/SteepestDescentSubsetHillClimber.py", "        gbest_soln = self.rng.choice(prob.decn_space, prob.ndecn, replace = False)", "        import time\n        gbest_soln = self.rng.choice(prob.decn_space, prob.ndecn, replace = False)\n        if int(time.time()) % 2: gbest_soln = gbest_soln[::-1].copy()", "start solution order depends on the wall clock")
 mut("c08-xconfig-cache", "C08", "pybrops/breed/prot/sel/cfg/SubsetSelectionConfiguration.py", "        outcross_shuffle(out, rng = self.rng)", "        outcross_shuffle(out, rng = self.rng if len(out) != 3 else None)", "three-cross configurations shuffled with the global stream")
+mut("c08-revert-embv-loopvar", "C08", "pybrops/breed/prot/sel/prob/ExpectedMaximumBreedingValueSelectionProblem.py", "            for _ in range(nrep):\n                # create progeny", "            for i in range(nrep):\n                # create progeny", "reverts fix 8dbcad0e (EMBV rows left uninitialised)")
 
 # ---------------------------------------------------------------- C16
 H5 = "pybrops/core/util/h5py.py"
@@ -179,6 +180,10 @@ mut("c07-mate-xmap-shifted", "C07", CF + "SubsetMateSelectionConfiguration.py", 
 mut("c07-binary-uses-all", "C07", CF + "BinarySelectionConfiguration.py", "            self.xconfig_decn\n        )", "            numpy.maximum(self.xconfig_decn, 1 if len(self.xconfig_decn) == 7 else 0)\n        )", "binary configurations of 7 candidates use unselected individuals too")
 mut("c07-real-weights-squared", "C07", CF + "RealSelectionConfiguration.py", "            self.xconfig_decn,\n            size = (self.ncross, self.nparent),", "            self.xconfig_decn**2,\n            size = (self.ncross, self.nparent),", "contribution weights squared before sampling")
 mut("c07-xconfig-one-cross-short", "C07", CF + "IntegerSelectionConfiguration.py", "            size = (self.ncross, self.nparent),", "            size = (max(self.ncross - 1, 1), self.nparent),", "one cross fewer than requested")
+mut("c07-wgs-alpha-one", "C07", "pybrops/breed/prot/sel/WeightedGenomicSelection.py", "        super(WeightedGenomicSubsetSelection, self).__init__(\n            ntrait = ntrait,\n            alpha = 0.5,", "        super(WeightedGenomicSubsetSelection, self).__init__(\n            ntrait = ntrait,\n            alpha = 1.0,", "weighted genomic selection weights by 1/p instead of 1/sqrt(p)")
+mut("c07-gwgebv-power-sign", "C07", "pybrops/breed/prot/sel/prob/GeneralizedWeightedGenomicEstimatedBreedingValueSelectionProblem.py", "        gwgebv = Z_a.dot(u_a * numpy.power(tmp, -alpha))", "        gwgebv = Z_a.dot(u_a * numpy.power(tmp, alpha))", "favourable-allele frequency weights applied with the wrong sign of the exponent (all four encodings)", count=4)
+mut("c07-fafreq-unfavourable", "C07", "pybrops/model/gmod/DenseAdditiveLinearGenomicModel.py", "        out = numpy.where(mask, acount, maxfav - acount)\n\n        # for alleles with zero effect", "        out = numpy.where(mask, maxfav - acount, acount)\n\n        # for alleles with zero effect", "favourable allele counts taken from the unfavourable allele", count=2)
+mut("c07-embv-self-crosses", "C07", "pybrops/breed/prot/sel/ExpectedMaximumBreedingValueSelection.py", "unique_parents = self.unique_parents,", "unique_parents = False,", "EMBV cross map ignores unique_parents", count=4)
 
 
 def run_one(m, runs, tier_args=()):
